@@ -452,7 +452,56 @@ func (w *World) calleeEnv(call ssa.CallInstruction, en *env) (*ssa.Function, *en
 			params[p.Name()] = en.apply(w.ExprOf(args[i]))
 		}
 	}
+	if mc != nil && len(g.FreeVars) == len(mc.Bindings) {
+		// a closure: a captured variable that is assigned exactly once where it is declared (typically a parameter of the
+		// enclosing function) has that value whenever the closure runs
+		for i, fv := range g.FreeVars {
+			if v := singleAssignment(mc.Bindings[i]); v != nil {
+				params["free:"+fv.Name()] = men.apply(w.ExprOf(v))
+			}
+		}
+	}
 	return g, &env{params: params, call: call, caller: en}
+}
+
+// singleAssignment: the binding is the address of a local that is stored to exactly once in its function and
+// never through a closure; returns the stored value.
+func singleAssignment(b ssa.Value) ssa.Value {
+	al, ok := b.(*ssa.Alloc)
+	if !ok || al.Referrers() == nil {
+		return nil
+	}
+	var val ssa.Value
+	n := 0
+	for _, r := range *al.Referrers() {
+		switch x := r.(type) {
+		case *ssa.Store:
+			if x.Addr == ssa.Value(al) {
+				n++
+				val = x.Val
+			}
+		case *ssa.MakeClosure:
+			// does the closure assign its free variable?
+			if fn, ok := x.Fn.(*ssa.Function); ok {
+				for i, bd := range x.Bindings {
+					if bd != ssa.Value(al) || i >= len(fn.FreeVars) {
+						continue
+					}
+					if refs := fn.FreeVars[i].Referrers(); refs != nil {
+						for _, fr := range *refs {
+							if st, ok := fr.(*ssa.Store); ok && st.Addr == ssa.Value(fn.FreeVars[i]) {
+								return nil
+							}
+						}
+					}
+				}
+			}
+		}
+	}
+	if n == 1 {
+		return val
+	}
+	return nil
 }
 
 func (w *World) callEnv(g *ssa.Function, call ssa.CallInstruction, up *env) *env {
